@@ -78,7 +78,7 @@ def run_case(case, ctx):
     tr = float(np.real(np.trace(rho)))
     p = np.real(np.diag(rho)) / tr
     units = nh + (na if kind == "mixed" else 0)
-    tau = TAU * 2 * units + 1e-11
+    tau = 2 * gen.tau_sp(nv, am, ph) + 1e-11
     sp = torch.tensor(V, dtype=torch.double)
     tags = {"state": kind}
     wit = {"am": gen.small_params(am), "ph": gen.small_params(ph)}
